@@ -105,15 +105,19 @@ func (w *webSocketClient) waitForConnAck() error {
 }
 
 func (w *webSocketClient) handleErr(err error) {
+	verifYield("handleErr.beforeLock")
 	w.Lock()
 	defer w.Unlock()
+	verifYield("handleErr.locked")
 	if !w.isClosing {
 		w.errChan <- err
 	}
 }
 
 func (w *webSocketClient) listenWebSocket() {
+	defer verifRecover()
 	for {
+		verifYield("reader.loop")
 		if w.isClosing {
 			return
 		}
@@ -137,6 +141,7 @@ func (w *webSocketClient) forwardWebSocketData(message []byte) error {
 		return err
 	}
 	sub, ok := w.subscriptions.Read(wsMsg.ID)
+	verifYield("reader.afterLookup")
 	if !ok {
 		return fmt.Errorf("received message for unknown subscription ID '%s'", wsMsg.ID)
 	}
@@ -199,6 +204,7 @@ func (w *webSocketClient) Close() error {
 	if err != nil {
 		return fmt.Errorf("failed to unsubscribe: %w", err)
 	}
+	verifYield("close.beforeLock")
 	w.Lock()
 	defer w.Unlock()
 	w.isClosing = true
